@@ -189,6 +189,11 @@ def family(prog, rep):
         t = b.term(ret.value, ret)
         inst = f"{fam.ci.qualname}.draw_sample"
         site = fn.where(ret)
+        from .distfam import rvs_call, SLOT_TABLE as _ST
+        t, problem = rvs_call(t, _ST.get(fam.name, (None,))[0] if not fam.generic else None)
+        if problem:
+            rep.fail("C07.family", inst + ":slots", site, problem)
+            continue
         if t[0] != "call":
             rep.fail("C07.family", inst, site, f"does not return an rvs call: {show(t)[:100]}")
             continue
